@@ -93,7 +93,10 @@ func (l *enumValueLoader) commentEnd(lex lexeme.LexEvent) {
 		panic(errs.ErrLoader.F())
 	}
 
-	l.enumConstraint.SetComment(l.lastIdx, lex.Value().String())
+	if l.lastIdx < l.enumConstraint.Len() {
+		l.enumConstraint.SetComment(l.lastIdx, lex.Value().String())
+	}
+	// A comment before the first value doesn't belong to any value.
 	l.stateFunc = l.annotationEnd
 }
 
